@@ -358,6 +358,6 @@ class RDACDatagramProtocol(DatagramProtocol, LoggingTrait):
         elif len(data) == 1 and self.step[addr] == 14:
             if data[0] == 0x00:
                 # no data available response
-                self.transport.sendto(bytes(0x41), addr)
+                self.transport.sendto(bytes([0x41]), addr)
         else:
             getattr(self, "step%d" % self.step[addr])(data, addr)
